@@ -32,52 +32,50 @@ Proof. induction l; destruct i; simpl; intros; try lia; auto. apply IHl. lia. Qe
 Lemma nth_set_nth_other : forall A (l : list A) i j x d, i <> j -> nth j (set_nth l i x) d = nth j l d.
 Proof. induction l; destruct i; destruct j; simpl; intros; try lia; auto. Qed.
 
-Lemma splice_from_length : forall l i off new, length (splice_from i l off new) = length l.
-Proof. induction l; simpl; intros; auto. Qed.
-Lemma nth_splice_from : forall l i off new j, j < length l ->
-  nth j (splice_from i l off new) c0 =
-  if (off <=? i + j) && (i + j <? off + length new) then nth (i + j - off) new c0 else nth j l c0.
+Lemma write_at_length : forall ps l cs, length (write_at l ps cs) = length l.
 Proof.
-  induction l; simpl; intros; [lia|].
-  destruct j.
-  - rewrite Nat.add_0_r. auto.
-  - rewrite IHl by lia. replace (S i + j) with (i + S j) by lia. auto.
+  induction ps as [|p ps IH]; intros l cs; simpl; auto.
+  destruct cs as [|c cs]; auto. rewrite IH. apply set_nth_length.
 Qed.
-Lemma splice_length : forall l off new, length (splice l off new) = length l.
-Proof. intros. apply splice_from_length. Qed.
-Lemma nth_splice_outside : forall l off new j, (j < off \/ off + length new <= j) -> nth j (splice l off new) c0 = nth j l c0.
+Lemma nth_write_at_outside : forall ps l cs j, ~ In j ps -> nth j (write_at l ps cs) c0 = nth j l c0.
 Proof.
-  intros. destruct (Nat.lt_ge_cases j (length l)).
-  - unfold splice. rewrite nth_splice_from by auto. simpl.
-    destruct (off <=? j) eqn:E1; destruct (j <? off + length new) eqn:E2; simpl; auto.
-    apply Nat.leb_le in E1. apply Nat.ltb_lt in E2. lia.
-  - rewrite !nth_overflow; auto. rewrite splice_length. auto.
+  induction ps as [|p ps IH]; intros l cs j H; simpl; auto.
+  destruct cs as [|c cs]; auto. rewrite IH by (intro; apply H; right; auto).
+  apply nth_set_nth_other. intro E. apply H. left. auto.
 Qed.
-Lemma nth_splice_inside : forall l off new j, off <= j < off + length new -> j < length l ->
-  nth j (splice l off new) c0 = nth (j - off) new c0.
+Lemma read_write_at : forall ps l cs, NoDup ps -> Forall (fun p => p < length l) ps -> length cs = length ps ->
+  read_at (write_at l ps cs) ps = cs.
 Proof.
-  intros. unfold splice. rewrite nth_splice_from by auto. simpl.
-  destruct (off <=? j) eqn:E1; destruct (j <? off + length new) eqn:E2; simpl; auto;
-    try apply Nat.leb_gt in E1; try apply Nat.ltb_ge in E2; lia.
+  induction ps as [|p ps IH]; intros l cs ND F L; destruct cs as [|c cs]; simpl in *; try discriminate; auto.
+  inversion ND; subst. inversion F; subst. f_equal.
+  - rewrite nth_write_at_outside by auto. apply nth_set_nth_same. auto.
+  - apply IH; auto.
+    eapply Forall_impl; [|eauto]. simpl. intros. rewrite set_nth_length. auto.
 Qed.
+Lemma read_at_seq : forall l, read_at l (seq 0 (length l)) = l.
+Proof.
+  unfold read_at. induction l; simpl; auto. f_equal. rewrite <- seq_shift, map_map. exact IHl.
+Qed.
+Lemma read_at_length : forall l ps, length (read_at l ps) = length ps.
+Proof. intros. apply map_length. Qed.
 
-Lemma write_buf_length : forall bs b off new, length (write_buf bs b off new) = length bs.
+Lemma write_buf_length : forall bs b ps new, length (write_buf bs b ps new) = length bs.
 Proof. intros. apply set_nth_length. Qed.
-Lemma write_buf_other : forall bs b off new b', b' <> b -> nth b' (write_buf bs b off new) [] = nth b' bs [].
+Lemma write_buf_other : forall bs b ps new b', b' <> b -> nth b' (write_buf bs b ps new) [] = nth b' bs [].
 Proof. intros. unfold write_buf. apply nth_set_nth_other. auto. Qed.
-Lemma write_buf_same_length : forall bs b off new, length (nth b (write_buf bs b off new) []) = length (nth b bs []).
+Lemma write_buf_same_length : forall bs b ps new, length (nth b (write_buf bs b ps new) []) = length (nth b bs []).
 Proof.
   intros. unfold write_buf. destruct (Nat.lt_ge_cases b (length bs)).
-  - rewrite nth_set_nth_same by auto. apply splice_length.
+  - rewrite nth_set_nth_same by auto. apply write_at_length.
   - rewrite !nth_overflow; auto. rewrite set_nth_length. auto.
 Qed.
-Lemma write_buf_cell_outside : forall bs b off new b' i,
-  (b' <> b \/ i < off \/ off + length new <= i) ->
-  nth i (nth b' (write_buf bs b off new) []) c0 = nth i (nth b' bs []) c0.
+Lemma write_buf_cell_outside : forall bs b ps new b' i,
+  (b' <> b \/ ~ In i ps) ->
+  nth i (nth b' (write_buf bs b ps new) []) c0 = nth i (nth b' bs []) c0.
 Proof.
   intros. destruct (Nat.eq_dec b' b) as [->|N].
   - unfold write_buf. destruct (Nat.lt_ge_cases b (length bs)).
-    + rewrite nth_set_nth_same by auto. apply nth_splice_outside. lia.
+    + rewrite nth_set_nth_same by auto. apply nth_write_at_outside. tauto.
     + rewrite !(nth_overflow _ [] ) ; auto. rewrite set_nth_length. auto.
   - rewrite write_buf_other; auto.
 Qed.
@@ -101,17 +99,12 @@ Lemma wfv_mono : forall n m v, n <= m -> wfv n v -> wfv m v.
 Proof. unfold wfv. intros. eapply Forall_impl; [|eauto]. simpl. intros. lia. Qed.
 
 Lemma read_arr_app : forall bs extra a, a_buf a < length bs -> read_arr (bs ++ extra) a = read_arr bs a.
-Proof. intros. unfold read_arr, read_buf. rewrite app_nth1; auto. Qed.
+Proof. intros. unfold read_arr. rewrite app_nth1; auto. Qed.
 Lemma read_value_app : forall bs extra v, wfv (length bs) v -> read_value (bs ++ extra) v = read_value bs v.
 Proof.
   intros. unfold read_value. apply map_ext_in. intros a Ha.
   apply read_arr_app. unfold wfv in H. rewrite Forall_forall in H. auto.
 Qed.
-Lemma read_arr_fresh : forall bs extra a i, a_buf a = length bs + i -> read_arr (bs ++ extra) a = read_buf extra i (a_off a) (size (a_shape a)).
-Proof.
-  intros. unfold read_arr, read_buf. rewrite H. rewrite app_nth2 by lia. replace (length bs + i - length bs) with i by lia. auto.
-Qed.
-
 (* ------------------------------------------------------------------ the frame relation of non-writing operations *)
 Definition Ext (d : nat) (h h' : heap) : Prop :=
   (exists extra, bufs h' = bufs h ++ extra) /\ noid h <= noid h' /\
@@ -265,7 +258,7 @@ Qed.
 (* ------------------------------------------------------------------ inversion of a successful ufunc call *)
 Lemma do_ufunc_ok : forall h d f a o h', do_ufunc h d f a o = (h', ROk) ->
   exists k dt s cells, ufunc_value (bufs h) f a o = inr (k, dt, s, cells) /\
-    h' = mkHeap (bufs h ++ [cells]) (noid h + 1) (bind d (VArr (fresh_arr h 0 0 k dt s)) (env h)).
+    h' = mkHeap (bufs h ++ [cells]) (noid h + 1) (bind d (VArr (fresh_arr h 0 0 k dt s (length cells))) (env h)).
 Proof.
   intros h d f a o h' H. unfold do_ufunc in H.
   destruct (ufunc_value (bufs h) f a o) as [e|[[[k dt] s] cells]] eqn:E.
@@ -293,7 +286,8 @@ Qed.
 Theorem iop_rebinds_never_writes : forall h d f y h' a, wf h ->
   exec h (OIop d f y) = (h', ROk) -> lookup d (env h) = Some (VArr a) ->
   read_arr (bufs h') a = read_arr (bufs h) a /\
-  exists a', lookup d (env h') = Some (VArr a') /\ a_buf a' = length (bufs h) /\ a_oid a' = noid h /\ a_off a' = 0.
+  exists a', lookup d (env h') = Some (VArr a') /\ a_buf a' = length (bufs h) /\ a_oid a' = noid h /\
+    a_idx a' = seq 0 (length (a_idx a')) /\ read_arr (bufs h') a' = nth (length (bufs h)) (bufs h') [].
 Proof.
   intros h d f y h' a W H L.
   assert (Ha : a_buf a < length (bufs h)).
@@ -306,7 +300,9 @@ Proof.
   destruct D as [ar D]. apply do_ufunc_ok in D. destruct D as (k & dt & s & cells & _ & ->). cbn [bufs env noid].
   split.
   - apply read_arr_app. auto.
-  - eexists. rewrite lookup_bind_same. split; [reflexivity|]. simpl. repeat split; lia.
+  - eexists. rewrite lookup_bind_same. split; [reflexivity|]. unfold fresh_arr. cbn [a_buf a_oid a_idx].
+    rewrite seq_length. repeat split; try lia.
+    unfold read_arr. cbn [a_buf a_idx]. rewrite Nat.add_0_r, app_nth2, Nat.sub_diag by lia. simpl. apply read_at_seq.
 Qed.
 
 (* the class of the rebound array is the class of the old one whenever that is a proper mesh
@@ -441,34 +437,7 @@ Proof.
   - simpl. intros b [E|[E|[E|[]]]]; inversion E; subst; auto.
 Qed.
 
-(* ================================================================== T3: __setitem__ is the only writer, and it writes only its window *)
-Lemma nth_skipn_c : forall (l : list cell) off i, nth i (skipn off l) c0 = nth (off + i) l c0.
-Proof.
-  induction l; intros; simpl.
-  - rewrite skipn_nil. destruct i; destruct (off + 0); destruct off; simpl; auto.
-  - destruct off; simpl; auto.
-Qed.
-Lemma nth_firstn_c : forall (l : list cell) n i, i < n -> nth i (firstn n l) c0 = nth i l c0.
-Proof.
-  induction l; intros; simpl.
-  - rewrite firstn_nil. auto.
-  - destruct n; [lia|]. destruct i; simpl; auto. apply IHl. lia.
-Qed.
-Lemma nth_read_buf : forall bs b off n i, i < n -> nth i (read_buf bs b off n) c0 = nth (off + i) (nth b bs []) c0.
-Proof. intros. unfold read_buf. rewrite nth_firstn_c by auto. apply nth_skipn_c. Qed.
-Lemma read_buf_length : forall bs b off n, length (read_buf bs b off n) = Nat.min n (length (nth b bs []) - off).
-Proof. intros. unfold read_buf. rewrite firstn_length, skipn_length. auto. Qed.
-Lemma read_buf_ext : forall bs1 bs2 b off n,
-  length (nth b bs1 []) = length (nth b bs2 []) ->
-  (forall i, off <= i < off + n -> nth i (nth b bs1 []) c0 = nth i (nth b bs2 []) c0) ->
-  read_buf bs1 b off n = read_buf bs2 b off n.
-Proof.
-  intros. apply nth_ext with (d := c0) (d' := c0).
-  - rewrite !read_buf_length. lia.
-  - intros i Hi. rewrite read_buf_length in Hi.
-    rewrite !nth_read_buf by lia. apply H0. lia.
-Qed.
-
+(* ================================================================== T3: __setitem__ is the only writer, and it writes only the positions of its target view *)
 Lemma bcast_cells_length : forall s t cells, length (bcast_cells s t cells) = size s.
 Proof. intros. unfold bcast_cells. rewrite map_length, seq_length. auto. Qed.
 Lemma shape_eqb_eq : forall a b, shape_eqb a b = true -> a = b.
@@ -489,7 +458,7 @@ Lemma exec_set_inv : forall h d s src h' r, exec h (OSet d s src) = (h', r) ->
   (h' = h /\ r <> ROk) \/
   (exists a reg cells, lookup d (env h) = Some (VArr a) /\ select a s = inr reg /\
      length cells = size (region_shape reg) /\ r = ROk /\
-     h' = mkHeap (write_buf (bufs h) (a_buf a) (region_off reg) cells) (noid h) (env h)).
+     h' = mkHeap (write_buf (bufs h) (a_buf a) (region_idx reg) cells) (noid h) (env h)).
 Proof.
   intros h d s src h' r H. unfold exec in H.
   repeat match type of H with
@@ -509,7 +478,7 @@ Theorem setitem_frame : forall h d s src h' r, exec h (OSet d s src) = (h', r) -
   (forall b, length (nth b (bufs h') []) = length (nth b (bufs h) [])) /\
   (r <> ROk -> h' = h) /\
   forall a reg, lookup d (env h) = Some (VArr a) -> select a s = inr reg ->
-    forall b i, (b <> a_buf a \/ i < region_off reg \/ region_off reg + size (region_shape reg) <= i) ->
+    forall b i, (b <> a_buf a \/ ~ In i (region_idx reg)) ->
       nth i (nth b (bufs h') []) c0 = nth i (nth b (bufs h) []) c0.
 Proof.
   intros h d s src h' r H. apply exec_set_inv in H.
@@ -522,20 +491,19 @@ Proof.
       * rewrite write_buf_other; auto.
     + intros C. exfalso. apply C. auto.
     + intros a' reg' L' S' b i Hout. rewrite L in L'. inversion L'; subst a'. rewrite S in S'. inversion S'; subst reg'.
-      apply write_buf_cell_outside. rewrite Len. auto.
+      apply write_buf_cell_outside. auto.
 Qed.
 
-(* any array whose window is disjoint from the written window reads the same afterwards *)
+(* any array none of whose positions is written reads the same afterwards *)
 Theorem setitem_preserves_disjoint : forall h d s src h' r a reg, exec h (OSet d s src) = (h', r) ->
   lookup d (env h) = Some (VArr a) -> select a s = inr reg ->
-  forall a2, (a_buf a2 <> a_buf a \/ a_off a2 + size (a_shape a2) <= region_off reg
-              \/ region_off reg + size (region_shape reg) <= a_off a2) ->
+  forall a2, (a_buf a2 <> a_buf a \/ forall i, In i (a_idx a2) -> ~ In i (region_idx reg)) ->
   read_arr (bufs h') a2 = read_arr (bufs h) a2.
 Proof.
   intros h d s src h' r a reg H L S a2 Hd.
-  destruct (setitem_frame _ _ _ _ _ _ H) as (_ & _ & _ & Hlen & _ & Hc).
-  unfold read_arr. apply read_buf_ext; auto.
-  intros i Hi. apply (Hc a reg L S). lia.
+  destruct (setitem_frame _ _ _ _ _ _ H) as (_ & _ & _ & _ & _ & Hc).
+  unfold read_arr, read_at. apply map_ext_in. intros i Hi. apply (Hc a reg L S).
+  destruct Hd as [Hd|Hd]; auto.
 Qed.
 (* without knowing the selection: arrays in other buffers are never affected *)
 Theorem setitem_preserves_other_buffers : forall h d s src h' r a, exec h (OSet d s src) = (h', r) ->
@@ -548,27 +516,25 @@ Proof.
   - eapply setitem_preserves_disjoint; eauto.
 Qed.
 
-(* a successful write is read back through the target (when the window lies inside the buffer) *)
-Lemma read_after_write : forall bs b off cells, off + length cells <= length (nth b bs []) ->
-  read_buf (write_buf bs b off cells) b off (length cells) = cells.
+(* a successful write is read back at the written positions (distinct and inside the buffer) *)
+Lemma read_after_write : forall bs b ps cells, NoDup ps -> Forall (fun p => p < length (nth b bs [])) ps ->
+  length cells = length ps -> read_at (nth b (write_buf bs b ps cells) []) ps = cells.
 Proof.
-  intros. apply nth_ext with (d := c0) (d' := c0).
-  - rewrite read_buf_length, write_buf_same_length. lia.
-  - intros i Hi. rewrite read_buf_length, write_buf_same_length in Hi.
-    rewrite nth_read_buf by lia. unfold write_buf.
-    destruct (Nat.lt_ge_cases b (length bs)).
-    + rewrite nth_set_nth_same by auto. rewrite nth_splice_inside by lia. f_equal. lia.
-    + rewrite (nth_overflow bs) in H by auto. simpl in H. lia.
+  intros bs b ps cells ND F L. unfold write_buf.
+  destruct (Nat.lt_ge_cases b (length bs)).
+  - rewrite nth_set_nth_same by auto. apply read_write_at; auto.
+  - rewrite (nth_overflow bs) in F by auto. destruct ps as [|p ps].
+    + destruct cells; simpl in *; [reflexivity|discriminate].
+    + inversion F; subst. simpl in *. lia.
 Qed.
 
 (* ================================================================== T4: copy construction *)
-Lemma firstn_read_buf : forall bs b off n, firstn n (read_buf bs b off n) = read_buf bs b off n.
-Proof. intros. unfold read_buf. rewrite firstn_firstn. rewrite Nat.min_id. auto. Qed.
-
-Lemma read_fresh_mk : forall bs extra o k dt sh i,
-  read_arr (bs ++ extra) (mkArr o k dt sh (length bs + i) 0) = firstn (size sh) (nth i extra []).
+Lemma read_at_seq_len : forall l n, length l = n -> read_at l (seq 0 n) = l.
+Proof. intros. subst. apply read_at_seq. Qed.
+Lemma read_fresh_mk : forall bs extra o k dt sh i n,
+  read_arr (bs ++ extra) (mkArr o k dt sh (length bs + i) (seq 0 n)) = read_at (nth i extra []) (seq 0 n).
 Proof.
-  intros. unfold read_arr, read_buf. simpl. rewrite app_nth2 by lia.
+  intros. unfold read_arr. cbn [a_buf a_idx]. rewrite app_nth2 by lia.
   replace (length bs + i - length bs) with i by lia. auto.
 Qed.
 
@@ -577,7 +543,7 @@ Lemma exec_copy_fresh : forall h d ck s h' v, exec h (OCopy d ck s) = (h', ROk) 
     freshv (length (bufs h)) v' /\ NoDup (map a_buf (leaves v')) /\
     read_value (bufs h') v' = read_value (bufs h) v /\
     map a_shape (leaves v') = map a_shape (leaves v) /\ map a_dt (leaves v') = map a_dt (leaves v) /\
-    Forall (fun a => a_off a = 0) (leaves v') /\
+    Forall (fun a => exists n, a_idx a = seq 0 n) (leaves v') /\
     match ck, v' with
     | CArr k, VArr a' => a_kind a' = k
     | CPart, VPart _ p' v' q' m' => a_kind p' = KPos /\ a_kind v' = KVel
@@ -594,12 +560,10 @@ Proof.
     eexists; eexists; eexists; (split; [reflexivity|]);
     cbn [bufs env noid]; unfold freshv, read_value, leaves, fresh_arr; simpl;
     repeat split;
-    try (repeat constructor; simpl; try lia; fail);
-    try (repeat f_equal; match goal with |- read_arr _ _ = _ => unfold read_arr at 1; simpl a_buf; simpl a_off; simpl a_shape end;
-         unfold read_buf at 1; rewrite app_nth2 by lia;
-         match goal with |- context [?x + ?k - ?x] => replace (x + k - x) with k by lia end; simpl; apply firstn_read_buf).
+    try (repeat constructor; simpl; try lia; fail).
   all: try (repeat constructor; simpl; intuition lia).
-  all: rewrite !read_fresh_mk; simpl; unfold read_arr; rewrite !firstn_read_buf; reflexivity.
+  all: try (repeat constructor; eexists; reflexivity).
+  all: rewrite !read_fresh_mk; simpl; unfold read_arr; rewrite !read_at_seq_len by apply read_at_length; reflexivity.
 Qed.
 
 (* Copy construction cls(src) (mesh, multi-component meshes, particles, fields): the new object has
@@ -630,36 +594,23 @@ Proof.
       unfold wfv in Hw. rewrite Forall_forall in Hw. specialize (Hw _ I2). lia.
 Qed.
 
-(* ================================================================== T5: component views alias the parent *)
-Lemma firstn_skipn_firstn : forall (l : list cell) k r n, k + r <= n -> firstn r (skipn k (firstn n l)) = firstn r (skipn k l).
+(* ================================================================== T5: views (components, slices, strided / transposed views) alias the parent *)
+Lemma read_at_sub : forall l idx k n, read_at l (sub idx k n) = firstn n (skipn k (read_at l idx)).
+Proof. intros. unfold read_at, sub. rewrite skipn_map, firstn_map. reflexivity. Qed.
+Lemma read_at_gather : forall l idx pos, Forall (fun p => p < length idx) pos ->
+  read_at l (map (fun p => nth p idx 0) pos) = map (fun p => nth p (read_at l idx) c0) pos.
 Proof.
-  induction l; intros; simpl.
-  - rewrite firstn_nil, skipn_nil, firstn_nil. auto.
-  - destruct n.
-    + assert (k = 0) by lia. assert (r = 0) by lia. subst. simpl. auto.
-    + destruct k; simpl.
-      * destruct r; simpl; auto. f_equal.
-        specialize (IHl 0 r n). simpl in IHl. apply IHl. lia.
-      * apply IHl. lia.
-Qed.
-Lemma skipn_skipn_c : forall (l : list cell) a b, skipn a (skipn b l) = skipn (b + a) l.
-Proof.
-  induction l; intros; simpl.
-  - rewrite !skipn_nil. auto.
-  - destruct b; simpl; auto.
-Qed.
-(* the structural fact: a window [off + k, off + k + r) inside a window [off, off + n) reads as the
-   corresponding sub-list, in EVERY buffer state *)
-Lemma sub_window_reads : forall bs b off n k r, k + r <= n ->
-  read_buf bs b (off + k) r = firstn r (skipn k (read_buf bs b off n)).
-Proof.
-  intros. unfold read_buf. rewrite firstn_skipn_firstn by auto. rewrite skipn_skipn_c. auto.
+  intros l idx pos F. unfold read_at. rewrite map_map. apply map_ext_in. intros p Hp.
+  rewrite Forall_forall in F. specialize (F _ Hp).
+  set (g := fun i => nth i l c0). change (g (nth p idx 0) = nth p (map g idx) c0).
+  rewrite (nth_indep (map g idx) c0 (g 0)) by (rewrite map_length; auto).
+  rewrite map_nth. reflexivity.
 Qed.
 
 Theorem component_views_alias : forall h c p i h1 ap, exec h (OComp c p i) = (h1, ROk) -> lookup p (env h) = Some (VArr ap) ->
   exists ac, lookup c (env h1) = Some (VArr ac) /\ bufs h1 = bufs h /\
     a_kind ac = KMesh /\ a_dt ac = a_dt ap /\ a_buf ac = a_buf ap /\ a_shape ac = tl (a_shape ap) /\
-    a_off ac = a_off ap + i * size (a_shape ac) /\ i < 2 /\ size (a_shape ap) = 2 * size (a_shape ac) /\
+    a_idx ac = sub (a_idx ap) (i * size (a_shape ac)) (size (a_shape ac)) /\ i < 2 /\ size (a_shape ap) = 2 * size (a_shape ac) /\
     (* in every buffer state, i.e. whatever is written later through the view, the parent or anything else *)
     forall bs, read_arr bs ac = firstn (size (a_shape ac)) (skipn (i * size (a_shape ac)) (read_arr bs ap)).
 Proof.
@@ -671,11 +622,52 @@ Proof.
   destruct t as [|m t]; [inversion H|].
   unfold ok_bind in H. inversion H; subst; clear H. cbn [env bufs].
   eexists. rewrite lookup_bind_same. split; [reflexivity|]. split; [apply app_nil_r|].
-  cbn [a_kind a_dt a_buf a_shape a_off tl].
+  cbn [a_kind a_dt a_buf a_shape a_idx tl].
   repeat split; auto.
-  intros bs. unfold read_arr. cbn [a_kind a_dt a_buf a_shape a_off]. rewrite S.
-  change (i * (m * size t)) with (i * size (m :: t)).
-  apply sub_window_reads. change (size (2 :: m :: t)) with (2 * size (m :: t)). nia.
+  intros bs. unfold read_arr. cbn [a_kind a_dt a_buf a_shape a_idx]. apply read_at_sub.
+Qed.
+
+(* general basic-indexing views  d = s.transpose(perm)[start:stop:step, ...]  (strided, reversed, sub-block,
+   transposed): same class, same buffer, and in EVERY buffer state the view reads as the gathered cells of the
+   parent at fixed in-range, pairwise distinct positions *)
+Lemma nodupb_NoDup : forall l, nodupb l = true -> NoDup l.
+Proof.
+  induction l as [|x l IH]; simpl; intros H; constructor.
+  - apply andb_true_iff in H. destruct H as [H _]. intro I. apply negb_true_iff in H.
+    assert (existsb (Nat.eqb x) l = true) by (apply existsb_exists; exists x; split; auto; apply Nat.eqb_refl). congruence.
+  - apply IH. apply andb_true_iff in H. tauto.
+Qed.
+Lemma view_of_spec : forall a perm sl nsh idx, view_of a perm sl = Some (nsh, idx) ->
+  exists pos, idx = map (fun p => nth p (a_idx a) 0) pos /\ Forall (fun p => p < length (a_idx a)) pos /\
+              NoDup idx /\ length idx = size nsh /\ nsh = map (fun x => snd x) sl.
+Proof.
+  intros a perm sl nsh idx H. unfold view_of in H.
+  repeat match type of H with
+         | context [if ?x then _ else _] => destruct x eqn:?
+         end; try discriminate.
+  inversion H; subst. eexists. split; [reflexivity|].
+  repeat match goal with E : _ && _ = true |- _ => apply andb_true_iff in E; destruct E end.
+  split; [|split; [|split]]; auto.
+  - apply Forall_forall. intros p Hp.
+    match goal with E : forallb _ _ = true |- _ => rewrite forallb_forall in E; specialize (E _ Hp); apply Nat.ltb_lt in E; exact E end.
+  - apply nodupb_NoDup. auto.
+  - apply Nat.eqb_eq. auto.
+Qed.
+Theorem strided_views_alias : forall h d s perm sl h1 ap, exec h (OView d s perm sl) = (h1, ROk) -> lookup s (env h) = Some (VArr ap) ->
+  exists av pos, lookup d (env h1) = Some (VArr av) /\ bufs h1 = bufs h /\
+    a_kind av = a_kind ap /\ a_dt av = a_dt ap /\ a_buf av = a_buf ap /\ a_shape av = map (fun x => snd x) sl /\
+    a_idx av = map (fun p => nth p (a_idx ap) 0) pos /\ Forall (fun p => p < length (a_idx ap)) pos /\
+    NoDup (a_idx av) /\ length (a_idx av) = size (a_shape av) /\
+    forall bs, read_arr bs av = map (fun p => nth p (read_arr bs ap) c0) pos.
+Proof.
+  intros h d s perm sl h1 ap H L. unfold exec in H. rewrite L in H.
+  destruct (view_of ap perm sl) as [[nsh idx]|] eqn:V; [|inversion H].
+  destruct (view_of_spec _ _ _ _ _ V) as (pos & E & F & ND & Len & Sh).
+  unfold ok_bind in H. inversion H; subst h1; clear H. cbn [env bufs].
+  exists (mkArr (noid h) (a_kind ap) (a_dt ap) nsh (a_buf ap) idx), pos.
+  rewrite lookup_bind_same. cbn [a_kind a_dt a_buf a_shape a_idx].
+  repeat split; auto; try apply app_nil_r.
+  intros bs. unfold read_arr. cbn [a_buf a_idx]. rewrite E. apply read_at_gather. auto.
 Qed.
 
 Lemma exec_keeps_binding : forall h o n, (is_setitem o = true \/ dst o <> n) ->
@@ -714,20 +706,20 @@ Qed.
 (* a write through the view is read back through the view, hence (previous theorem) seen in the parent *)
 Theorem setitem_reads_back : forall h d src h' a cells, exec h (OSet d SAll src) = (h', ROk) ->
   lookup d (env h) = Some (VArr a) -> a_shape a <> [] ->
-  a_off a + size (a_shape a) <= length (nth (a_buf a) (bufs h) []) ->
+  NoDup (a_idx a) -> Forall (fun p => p < length (nth (a_buf a) (bufs h) [])) (a_idx a) -> length (a_idx a) = size (a_shape a) ->
   (exists ps u, eval_operand h src = Some ps /\ as_ufarg (bufs h) ps = Some u /\
      assign_cells (a_dt a) (a_shape a) (u_cplx u) (u_shape u) (u_cells u) = Some cells) ->
   read_arr (bufs h') a = cells.
 Proof.
-  intros h d src h' a cells H L Hs Hb (ps & u & E1 & E2 & E3).
+  intros h d src h' a cells H L Hs ND Hb Hl (ps & u & E1 & E2 & E3).
   unfold exec in H. rewrite L, E1 in H.
   unfold select in H. destruct (a_shape a) as [|n t] eqn:S; [congruence|].
-  rewrite E2 in H. cbn [region_shape region_off] in H. rewrite E3 in H.
+  rewrite E2 in H. cbn [region_shape region_idx] in H. rewrite E3 in H.
   apply assign_cells_length in E3.
   destruct (u_kind u); simpl in H.
   2: destruct (u_cplx u && negb (is_cplx (a_dt a))); [inversion H|].
-  all: inversion H; subst; cbn [bufs]; unfold read_arr; rewrite S; rewrite <- E3;
-    apply read_after_write; rewrite E3; auto.
+  all: inversion H; subst; cbn [bufs]; unfold read_arr;
+    apply read_after_write; auto; congruence.
 Qed.
 
 (* ================================================================== T7: abs() is the maximum norm *)
@@ -898,24 +890,58 @@ Proof.
 Qed.
 
 (* ================================================================== strong well-formedness (windows in bounds) and full-strength view theorems *)
-(* strong well-formedness: every bound array's window lies inside its (allocated) buffer *)
+(* strong well-formedness: every bound array's positions are pairwise distinct, lie inside its (allocated) buffer
+   and are as many as its shape says *)
 Definition inb (bs : list (list cell)) (a : arr) : Prop :=
-  a_buf a < length bs /\ a_off a + size (a_shape a) <= length (nth (a_buf a) bs []).
+  a_buf a < length bs /\ Forall (fun p => p < length (nth (a_buf a) bs [])) (a_idx a) /\
+  NoDup (a_idx a) /\ length (a_idx a) = size (a_shape a).
 Definition wfsv (bs : list (list cell)) (v : value) : Prop := Forall (inb bs) (leaves v).
 Definition wfs (h : heap) : Prop := forall n v, lookup n (env h) = Some v -> wfsv (bufs h) v.
 
 Lemma inb_app : forall bs extra a, inb bs a -> inb (bs ++ extra) a.
-Proof. unfold inb. intros bs extra a [H1 H2]. rewrite app_length, app_nth1 by auto. split; lia. Qed.
+Proof. unfold inb. intros bs extra a (H1 & H2 & H3 & H4). rewrite app_length, app_nth1 by auto. repeat split; auto; lia. Qed.
 Lemma wfsv_app : forall bs extra v, wfsv bs v -> wfsv (bs ++ extra) v.
 Proof. unfold wfsv. intros. eapply Forall_impl; [|eauto]. intros. apply inb_app. auto. Qed.
-Lemma inb_fresh : forall bs extra o k dt sh i, i < length extra -> length (nth i extra []) = size sh ->
-  inb (bs ++ extra) (mkArr o k dt sh (length bs + i) 0).
+Lemma inb_fresh : forall bs extra o k dt sh i n, i < length extra -> length (nth i extra []) = n -> n = size sh ->
+  inb (bs ++ extra) (mkArr o k dt sh (length bs + i) (seq 0 n)).
 Proof.
-  unfold inb. intros. simpl. rewrite app_length, app_nth2 by lia.
-  replace (length bs + i - length bs) with i by lia. split; lia.
+  unfold inb. intros. cbn [a_buf a_idx a_shape]. rewrite app_length, app_nth2 by lia.
+  replace (length bs + i - length bs) with i by lia. repeat split; try lia.
+  - apply Forall_forall. intros p Hp. apply in_seq in Hp. lia.
+  - apply seq_NoDup.
+  - rewrite seq_length. auto.
 Qed.
 Lemma read_arr_length : forall bs a, inb bs a -> length (read_arr bs a) = size (a_shape a).
-Proof. intros bs a [H1 H2]. unfold read_arr. rewrite read_buf_length. lia. Qed.
+Proof. intros bs a (H1 & H2 & H3 & H4). unfold read_arr. rewrite read_at_length. auto. Qed.
+Lemma sub_incl : forall (l : list nat) k n x, In x (sub l k n) -> In x l.
+Proof.
+  intros l k n x H. unfold sub in H. rewrite <- (firstn_skipn k l). apply in_or_app. right.
+  rewrite <- (firstn_skipn n (skipn k l)). apply in_or_app. left. auto.
+Qed.
+Lemma NoDup_app_r : forall (l1 l2 : list nat), NoDup (l1 ++ l2) -> NoDup l2.
+Proof. induction l1; simpl; intros l2 H; auto. inversion H; auto. Qed.
+Lemma NoDup_app_l : forall (l1 l2 : list nat), NoDup (l1 ++ l2) -> NoDup l1.
+Proof.
+  induction l1; simpl; intros l2 H; constructor; inversion H; subst.
+  - intro I. apply H2. apply in_or_app. auto.
+  - eapply IHl1; eauto.
+Qed.
+Lemma sub_NoDup : forall (l : list nat) k n, NoDup l -> NoDup (sub l k n).
+Proof.
+  intros l k n H. unfold sub. rewrite <- (firstn_skipn k l) in H. apply NoDup_app_r in H.
+  rewrite <- (firstn_skipn n (skipn k l)) in H. apply NoDup_app_l in H. auto.
+Qed.
+Lemma sub_length : forall (l : list nat) k n, k + n <= length l -> length (sub l k n) = n.
+Proof. intros. unfold sub. rewrite firstn_length, skipn_length. lia. Qed.
+Lemma inb_sub : forall bs a k n sh o kd dt, inb bs a -> k + n <= length (a_idx a) -> n = size sh ->
+  inb bs (mkArr o kd dt sh (a_buf a) (sub (a_idx a) k n)).
+Proof.
+  unfold inb. intros bs a k n sh o kd dt (H1 & H2 & H3 & H4) Hk Hn. cbn [a_buf a_idx a_shape].
+  repeat split; auto.
+  - apply Forall_forall. intros p Hp. apply sub_incl in Hp. rewrite Forall_forall in H2. auto.
+  - apply sub_NoDup. auto.
+  - rewrite sub_length; auto.
+Qed.
 
 Lemma wfs_ok_bind : forall h extra d v k, wfs h -> wfsv (bufs h ++ extra) v -> wfs (fst (ok_bind h extra d v k)).
 Proof.
@@ -983,12 +1009,12 @@ Proof.
   apply inb_fresh; simpl; auto. eapply ufunc_value_length; eauto.
 Qed.
 
-Lemma inb_fresh_i : forall h extra o k dt sh i, i < length extra -> length (nth i extra []) = size sh ->
-  inb (bufs h ++ extra) (mkArr o k dt sh (length (bufs h) + i) 0).
+Lemma inb_fresh_i : forall h extra o k dt sh i n, i < length extra -> length (nth i extra []) = n -> n = size sh ->
+  inb (bufs h ++ extra) (mkArr o k dt sh (length (bufs h) + i) (seq 0 n)).
 Proof. intros. apply inb_fresh; auto. Qed.
 
 Ltac fresh_tac :=
-  unfold fresh_arr; apply inb_fresh_i; simpl; try lia; auto.
+  unfold fresh_arr; apply inb_fresh_i; simpl; try lia; try reflexivity; auto.
 
 Lemma part_result_wfs : forall h d p v q m e1 e2, wfs h -> inb (bufs h) q -> inb (bufs h) m ->
   wfs (fst (part_result h d p v q m e1 e2)).
@@ -996,7 +1022,7 @@ Proof.
   intros. unfold part_result.
   repeat dmatch; try (apply wfs_fail; auto).
   apply wfs_ok_bind; auto. unfold wfsv, leaves.
-  repeat constructor; try (apply inb_app; assumption);
+  repeat (apply Forall_cons || apply Forall_nil); try (apply inb_app; assumption);
     fresh_tac; eapply assign_cells_length; eauto.
 Qed.
 Lemma fld_result_wfs : forall h d e g e1 e2, wfs h -> wfs (fst (fld_result h d e g e1 e2)).
@@ -1004,7 +1030,7 @@ Proof.
   intros. unfold fld_result.
   repeat dmatch; try (apply wfs_fail; auto).
   apply wfs_ok_bind; auto. unfold wfsv, leaves.
-  repeat constructor; fresh_tac; eapply assign_cells_length; eauto.
+  repeat (apply Forall_cons || apply Forall_nil); fresh_tac; eapply assign_cells_length; eauto.
 Qed.
 Lemma Forall_two : forall A (P : A -> Prop) x y, P x -> P y -> Forall P [x; y].
 Proof. intros. constructor; auto. Qed.
@@ -1031,39 +1057,36 @@ Proof.
     constructor; [eapply eval_operand_wfs; eauto|]. apply IH; auto.
 Qed.
 
-Lemma inb_write : forall bs b off new a, inb bs a -> inb (write_buf bs b off new) a.
+Lemma inb_write : forall bs b ps new a, inb bs a -> inb (write_buf bs b ps new) a.
 Proof.
-  unfold inb. intros bs b off new a [H1 H2]. rewrite write_buf_length. split; auto.
+  unfold inb. intros bs b ps new a (H1 & H2 & H3 & H4). rewrite write_buf_length. repeat split; auto.
   destruct (Nat.eq_dec (a_buf a) b) as [E|N].
   - rewrite E. rewrite write_buf_same_length. rewrite <- E. auto.
   - rewrite write_buf_other; auto.
 Qed.
 
-Lemma select_inb : forall bs a s sh off, inb bs a -> select a s = inr (RegArr sh off) ->
-  forall o k dt, inb bs (mkArr o k dt sh (a_buf a) off).
+Lemma select_inb : forall bs a s sh idx, inb bs a -> select a s = inr (RegArr sh idx) ->
+  forall o k dt, inb bs (mkArr o k dt sh (a_buf a) idx).
 Proof.
-  intros bs a s sh off [H1 H2] S o k dt. unfold select in S.
+  intros bs a s sh idx I S o k dt. pose proof I as (H1 & H2 & H3 & H4). unfold select in S.
   destruct (a_shape a) as [|n t] eqn:Sh; [discriminate|].
-  change (size (n :: t)) with (n * size t) in H2.
-  unfold inb. cbn [a_buf a_off a_shape]. split; auto.
+  change (size (n :: t)) with (n * size t) in H4.
   destruct s as [|lo hi|i].
-  - inversion S; subst. exact H2.
-  - inversion S; subst. change (size ((Nat.min hi n - Nat.min lo n) :: t)) with ((Nat.min hi n - Nat.min lo n) * size t).
-    set (sz := size t) in *. clearbody sz.
-    assert (Nat.min lo n * sz + (Nat.min hi n - Nat.min lo n) * sz <= n * sz).
-    { rewrite <- Nat.mul_add_distr_r. apply Nat.mul_le_mono_r. lia. }
-    lia.
+  - inversion S; subst. unfold inb. cbn [a_buf a_idx a_shape]. repeat split; auto.
+  - inversion S; subst. apply inb_sub; auto.
+    rewrite H4. set (sz := size t) in *. clearbody sz.
+    rewrite <- Nat.mul_add_distr_r. apply Nat.mul_le_mono_r. lia.
   - destruct (i <? n) eqn:L; [|discriminate]. apply Nat.ltb_lt in L.
-    destruct t as [|m t']; inversion S; subst.
-    change (m * size t') with (size (m :: t')) in *.
-    set (sz := size (m :: t')) in *. clearbody sz.
-    assert (i * sz + sz <= n * sz) by (replace (i * sz + sz) with ((i + 1) * sz) by lia; apply Nat.mul_le_mono_r; lia).
-    lia.
+    destruct t as [|m t']; inversion S; subst. apply inb_sub; auto.
+    rewrite H4. change (m * size t') with (size (m :: t')). set (sz := size (m :: t')) in *. clearbody sz.
+    replace (i * sz + sz) with ((i + 1) * sz) by lia. apply Nat.mul_le_mono_r. lia.
 Qed.
 
 Ltac leaves_tac := unfold wfsv, leaves; repeat (apply Forall_cons || apply Forall_nil).
 Ltac len_tac :=
-  simpl; try rewrite !repeat_length; try lia;
+  simpl; try rewrite !repeat_length; try lia; try reflexivity;
+  try (unfold read_arr; apply read_at_length);
+  try (match goal with H : inb _ ?a |- length (a_idx ?a) = _ => exact (proj2 (proj2 (proj2 H))) end);
   try (apply read_arr_length; assumption);
   try (rewrite read_arr_length by assumption; reflexivity).
 
@@ -1130,12 +1153,11 @@ Proof.
       destruct n as [|[|[|n]]]; try (apply wfs_fail; auto; fail).
       destruct t as [|m t]; [apply wfs_fail; auto|].
       apply wfs_ok_bind; auto. leaves_tac. rewrite app_nil_r.
-      match goal with H : inb _ a |- _ => destruct H as [B1 B2] end.
-      rewrite Sh in B2. change (size (2 :: m :: t)) with (2 * size (m :: t)) in B2.
-      unfold inb. cbn [a_buf a_off a_shape tl]. split; auto.
+      match goal with H : inb _ a |- _ => pose proof H as (B1 & B2 & B3 & B4) end.
+      rewrite Sh in B4. change (size (2 :: m :: t)) with (2 * size (m :: t)) in B4.
+      cbn [tl]. apply inb_sub; auto. rewrite B4.
       set (sz := size (m :: t)) in *. clearbody sz.
-      assert (c * sz + sz <= 2 * sz) by (replace (c * sz + sz) with ((c + 1) * sz) by lia; apply Nat.mul_le_mono_r; lia).
-      lia.
+      replace (c * sz + sz) with ((c + 1) * sz) by lia. apply Nat.mul_le_mono_r. lia.
     + destruct c as [|[|[|[|c]]]]; try (apply wfs_fail; auto; fail);
         apply wfs_ok_bind; auto; leaves_tac; rewrite app_nil_r; assumption.
     + destruct c as [|[|c]]; try (apply wfs_fail; auto; fail);
@@ -1154,6 +1176,18 @@ Proof.
   - (* OSum0 *)
     repeat dmatch; try (apply wfs_fail; auto; fail).
     apply wfs_ok_bind; auto. leaves_tac. fresh_tac. simpl. rewrite map_length, seq_length. reflexivity.
+  - (* OView *)
+    destruct (lookup s (env h)) as [v|] eqn:L; [|apply wfs_fail; auto].
+    pose proof (INV _ _ L) as I.
+    destruct v as [a|o p v q m|o e g|t c]; try (apply wfs_fail; auto; fail).
+    unfold leaves in I. inversion I; subst.
+    destruct (view_of a perm sl) as [[nsh idx]|] eqn:V; [|apply wfs_fail; auto].
+    destruct (view_of_spec _ _ _ _ _ V) as (pos & E & F & ND & Len & Sh).
+    apply wfs_ok_bind; auto. leaves_tac. rewrite app_nil_r.
+    match goal with H : inb _ a |- _ => destruct H as (B1 & B2 & B3 & B4) end.
+    unfold inb. cbn [a_buf a_idx a_shape]. repeat split; auto.
+    rewrite E. apply Forall_forall. intros x Hx. apply in_map_iff in Hx. destruct Hx as (p & <- & Hp).
+    rewrite Forall_forall in F, B2. apply B2. apply nth_In. auto.
   - (* ODel *)
     destruct (lookup d (env h)) eqn:L; [|apply wfs_fail; auto].
     intros n0 v0 Hl. cbn [fst env bufs] in *. destruct (Nat.eq_dec n0 d) as [->|N].
@@ -1177,7 +1211,7 @@ Proof.
   intros h d src h' a cells W H L E.
   assert (I : inb (bufs h) a).
   { specialize (W _ _ L). unfold wfsv, leaves in W. inversion W; auto. }
-  destruct I as [_ I2].
+  destruct I as (_ & I2 & I3 & I4).
   eapply setitem_reads_back; eauto.
   intro Sh. unfold exec in H. rewrite L in H. destruct E as (ps & u & E1 & _). rewrite E1 in H.
   unfold select in H. rewrite Sh in H. unfold fail in H. inversion H.
@@ -1217,4 +1251,40 @@ Proof.
   destruct (component_view_tracks_parent [OSet p SAll src] h c p i h1 ap ac H L N Lc) as (_ & _ & T).
   { intros o [<-|[]]. left. reflexivity. }
   unfold exec_seq in T. cbn [fold_left] in T. rewrite H2 in T. cbn [fst] in T. rewrite T, R. reflexivity.
+Qed.
+
+(* the composition the strided/transposed views are there for: take a strided / reversed / sub-block / transposed
+   view v of a multi-component mesh p, take a component c of v, write through c: the write lands in p, at the
+   gathered positions of that component *)
+Theorem strided_component_write_seen_in_base : forall h v p perm sl h1 ap av pos c i h2 ac src h3 cells, wfs h ->
+  exec h (OView v p perm sl) = (h1, ROk) -> lookup p (env h) = Some (VArr ap) -> lookup v (env h1) = Some (VArr av) ->
+  (forall bs, read_arr bs av = map (fun q => nth q (read_arr bs ap) c0) pos) ->
+  exec h1 (OComp c v i) = (h2, ROk) -> c <> v -> lookup c (env h2) = Some (VArr ac) ->
+  exec h2 (OSet c SAll src) = (h3, ROk) ->
+  (exists ps u, eval_operand h2 src = Some ps /\ as_ufarg (bufs h2) ps = Some u /\
+     assign_cells (a_dt ac) (a_shape ac) (u_cplx u) (u_shape u) (u_cells u) = Some cells) ->
+  firstn (size (a_shape ac)) (skipn (i * size (a_shape ac)) (map (fun q => nth q (read_arr (bufs h3) ap) c0) pos)) = cells.
+Proof.
+  intros h v p perm sl h1 ap av pos c i h2 ac src h3 cells W H L Lv G HC N Lc HS E.
+  assert (W1 : wfs h1). { replace h1 with (fst (exec h (OView v p perm sl))) by (rewrite H; auto). apply exec_wfs. auto. }
+  rewrite <- G. eapply component_write_seen_in_parent with (h := h1); eauto.
+Qed.
+
+Definition strided_demo : list op :=
+  [ONew 0 KImex DReal [2; 3] 1;
+   OView 1 0 [0; 2; 1] [(0%Z, 1%Z, 2); (2%Z, (-2)%Z, 2); (0%Z, 1%Z, 2)];      (* v = f.transpose(0,2,1)[:, ::-2, :] *)
+   OComp 2 1 1;                                                     (* c = v.expl *)
+   OSet 2 SAll (OS SInt (9, 0)%Z)].                                 (* c[:] = 9 *)
+Example strided_demo_run :
+  dump 3 (exec_seq empty_heap strided_demo) =
+  [1; 2; 0; 3; 2; 2; 3;  1;0; 1;0; 1;0; 1;0; 1;0; 1;0;  9;0; 1;0; 9;0; 9;0; 1;0; 9;0;
+   1; 2; 0; 3; 2; 2; 2;  1;0; 1;0; 1;0; 1;0;  9;0; 9;0; 9;0; 9;0;
+   1; 1; 0; 2; 2; 2;  9;0; 9;0; 9;0; 9;0;
+   -1; 0; 1; 2; -2; 0; 1; 0; 2; 1; 2]%Z.
+Proof. vm_compute. reflexivity. Qed.
+Example strided_demo_hypotheses : exists h ap h1, wfs h /\ lookup 0 (env h) = Some (VArr ap) /\
+  exec h (OView 1 0 [0; 2; 1] [(0%Z, 1%Z, 2); (2%Z, (-2)%Z, 2); (0%Z, 1%Z, 2)]) = (h1, ROk).
+Proof.
+  exists (exec_seq empty_heap (firstn 1 strided_demo)). eexists. eexists.
+  split; [apply wfs_reachable|]. split; vm_compute; reflexivity.
 Qed.
